@@ -580,10 +580,52 @@ class Sub(Contract):
 
 @register
 class Element(Contract):
-    """assumed at call sites only (value-level function: contents are dropped by E1)"""
     name, func = 'TT.element', 'element'
-    props = ()
-    verify = False
+    props = ('C01',)
+    loop_ordinals = {0: 'i in range(1, self.order)'}
+
+    def instances(self):
+        return [{'indices': 'list'}, {'indices': 'not-a-list'}]
+
+    def setup(self, ex, state, inst):
+        m0 = ex.ctx.mark0
+        me = mk_tt(state, 'self', m0)
+        if inst['indices'] == 'list':
+            n = fresh('nidx')
+            idx = mk_int_list(state, 'indices', n)
+            state.assume(z3.And(n >= 0, idx.ref >= 0, idx.ref < m0))
+        else:
+            idx = 7
+        return {'self': me, 'indices': idx}
+
+    def requires(self, S):
+        yield 'boundary-ranks-1', boundary_one(S.a['self'])
+
+    def exceptional(self, S):
+        me, idx = S.o['self'], S.o['indices']
+        if not isinstance(idx, SList):
+            return {'TypeError': True, 'ValueError': False, 'IndexError': False}
+        d = zi(me.order)
+        n = zi(idx.length)
+        inrange = z3.And(FA(0, 2 * d, lambda j: lst_get(idx, j) >= 0), FA(0, d, lambda j: lst_get(idx, j) < lst_get(me.row_dims, j)),
+                         FA(0, d, lambda j: lst_get(idx, j + d) < lst_get(me.col_dims, j)))
+        return {'TypeError': False, 'ValueError': n != 2 * d, 'IndexError': z3.And(n == 2 * d, z3.Not(inrange))}
+
+    def ensures(self, S, res):
+        yield 'returns-scalar', isinstance(res, SArr) and len(res.shape) == 0
+
+    def canary(self, S, res):
+        return z3.BoolVal(False)
+
+    def invariant(self, key, inst):
+        if key != 'i in range(1, self.order)':
+            return None
+
+        def inv(V, i, k):
+            me = V.old('self')
+            e = V['entry']
+            yield 'shape', z3.And(e.shape[0] == 1, e.shape[1] == lst_get(me.ranks, i)) if len(e.shape) == 2 else False
+        return inv
 
     def effect(self, ex, state, A, inst, line):
         return SNum('element', cplx=fresh('elem_cx', 'bool'))
@@ -607,6 +649,8 @@ class MatMul(Contract):
         if isinstance(o, STT):
             # derived from the code: cores are paired index by index over range(self.order)
             yield 'same-order', zi(me.order) == zi(o.order)
+            # the all-dims-1 case returns element([0, ...]) of the product, which needs boundary ranks 1
+            yield 'boundary-ranks-1', z3.And(boundary_one(me), boundary_one(o))
 
     def _cols_match(self, me, o):
         d = zi(me.order)
@@ -1333,13 +1377,70 @@ class IsOperator(Contract):
 
 @register
 class Matricize(Contract):
-    """assumed at call sites (value-level); verified separately for index/shape safety"""
     name, func = 'TT.matricize', 'matricize'
-    props = ()
-    verify = False
+    props = ('C01',)
+    loop_ordinals = {0: 'i in range(1, self.order)'}
+
+    def setup(self, ex, state, inst):
+        from vt.e1.calls import prod_instance
+        me = mk_tt(state, 'self', ex.ctx.mark0)
+        d = zi(me.order)
+        for l in (me.row_dims, me.col_dims):
+            snap = l.snapshot()
+            for (a, b) in ((0, 1), (0, d)):
+                for ax in prod_instance(snap, a, b):
+                    state.assume(ax)
+        return {'self': me}
+
+    def requires(self, S):
+        # derived from the first and the final reshape
+        yield 'boundary-ranks-1', boundary_one(S.a['self'])
+
+    def _P(self, S):
+        from vt.e1.calls import prod_fun
+        me = S.o['self']
+        return prod_fun(me.row_dims), prod_fun(me.col_dims)
+
+    def ensures(self, S, res):
+        me = S.o['self']
+        d = zi(me.order)
+        Pr, Pc = self._P(S)
+        ok = isinstance(res, SArr)
+        yield 'returns-array', ok
+        if ok:
+            vec = FA(0, d, lambda j: lst_get(me.col_dims, j) == 1)
+            if len(res.shape) == 1:
+                yield 'vector-iff-all-col-dims-1', vec
+                yield 'shape', res.shape[0] == Pr(0, d)
+            else:
+                yield 'matrix-iff-some-col-dim>1', z3.Not(vec)
+                yield 'shape', z3.And(len(res.shape) == 2, res.shape[0] == Pr(0, d), res.shape[1] == Pc(0, d))
+
+    def canary(self, S, res):
+        return res.shape[0] == 0
+
+    def invariant(self, key, inst):
+        if key != 'i in range(1, self.order)':
+            return None
+
+        def inv(V, i, k):
+            from vt.e1.calls import prod_fun
+            me = V.old('self')
+            t = V['tt_mat']
+            Pr, Pc = prod_fun(me.row_dims), prod_fun(me.col_dims)
+            yield 'shape', z3.And(len(t.shape) == 3, t.shape[0] == Pr(0, i), t.shape[1] == Pc(0, i), t.shape[2] == lst_get(me.ranks, i)) if len(t.shape) == 3 else False
+        return inv
 
     def effect(self, ex, state, A, inst, line):
-        return npmodel_new(state, [fresh('mm'), fresh('mn')])
+        # vector or matrix depending on data (all column dimensions 1): fork the caller's statement
+        from vt.e1.symexec import ForkRequest
+        me = A['self'].snapshot()
+        d = zi(me.order)
+        key = ('matricize', line, str(me.ref))
+        dec = state.decisions.get(key)
+        if dec is None:
+            raise ForkRequest(key, FA(0, d, lambda j: lst_get(me.col_dims, j) == 1))
+        return npmodel_new(state, [fresh('mm')] if dec else [fresh('mm'), fresh('mn')])
 
 
 def npmodel_new(state, shape):
@@ -1364,6 +1465,8 @@ class Norm(Contract):
     def requires(self, S):
         # derived from the final reshape of the first core (p=2) / from matricize (p=1): first boundary rank 1
         yield 'ranks[0]==1', lst_get(S.a['self'].ranks, 0) == 1
+        if S.a['p'] == 1:
+            yield 'ranks[-1]==1', lst_get(S.a['self'].ranks, zi(S.a['self'].order)) == 1
 
     def exceptional(self, S):
         return {'ValueError': S.a['p'] not in (1, 2)}
@@ -1377,3 +1480,90 @@ class Norm(Contract):
 
     def effect(self, ex, state, A, inst, line):
         return SNum('norm', nonneg=z3.BoolVal(True))
+
+
+@register
+class Unit(Contract):
+    name, func, cls = 'fn:unit', 'unit', None
+    props = ('C01', 'C06')
+    loop_ordinals = {0: 'i in range(t.order)'}
+
+    def setup(self, ex, state, inst):
+        m0 = ex.ctx.mark0
+        d = fresh('d')
+        state.assume(d >= 1)
+        dims, inds = mk_int_list(state, 'dims', d), mk_int_list(state, 'inds', d)
+        for l in (dims, inds):
+            state.assume(z3.And(l.ref >= 0, l.ref < m0))
+        state.assume(FA(0, d, lambda j: lst_get(dims, j) >= 1))
+        return {'dims': dims, 'inds': inds}
+
+    def requires(self, S):
+        dims, inds = S.a['dims'], S.a['inds']
+        d = zi(dims.length)
+        # derived from the element assignment t.cores[i][0, inds[i], 0, 0] = 1
+        yield 'positions-in-range', z3.And(zi(inds.length) == d, FA(0, d, lambda j: z3.And(lst_get(inds, j) >= -lst_get(dims, j), lst_get(inds, j) < lst_get(dims, j))))
+
+    def ensures(self, S, res):
+        yield from fresh_result(S, res)
+        if not isinstance(res, STT):
+            return
+        dims = S.o['dims']
+        d = zi(dims.length)
+        yield 'order', zi(res.order) == d
+        yield 'dims', z3.And(same_ints(res.row_dims, dims, d), FA(0, d, lambda j: lst_get(res.col_dims, j) == 1))
+        yield 'ranks-1', FA(0, d + 1, lambda j: lst_get(res.ranks, j) == 1)
+
+    def canary(self, S, res):
+        return lst_get(res.ranks, 0) == 2 if isinstance(res, STT) else None
+
+    def invariant(self, key, inst):
+        if key != 'i in range(t.order)':
+            return None
+
+        def inv(V, i, k):
+            t, dims = V['t'], V.old('dims')
+            d = zi(dims.length)
+            yield 't', z3.And(wf(t), meta_fresh(t, V.mark0), cores_fresh(t, V.mark0), lists_distinct(t), zi(t.order) == d, same_ints(t.row_dims, dims, d),
+                              FA(0, d, lambda j: lst_get(t.col_dims, j) == 1), FA(0, d + 1, lambda j: lst_get(t.ranks, j) == 1))
+        return inv
+
+
+@register
+class Uniform(Contract):
+    name, func, cls = 'fn:uniform', 'uniform', None
+    props = ('C01', 'C06')
+
+    def instances(self):
+        return [{'ranks': 'int'}, {'ranks': 'list'}]
+
+    def defaults(self):
+        return {'ranks': 1, 'norm': SNum('one')}
+
+    def setup(self, ex, state, inst):
+        m0 = ex.ctx.mark0
+        d = fresh('d')
+        state.assume(d >= 1)
+        rd = mk_int_list(state, 'row_dims', d)
+        state.assume(z3.And(rd.ref >= 0, rd.ref < m0, FA(0, d, lambda j: lst_get(rd, j) >= 1)))
+        if inst['ranks'] == 'int':
+            rk = fresh('r')
+            state.assume(rk >= 1)
+        else:
+            rk = mk_int_list(state, 'ranks', d + 1)
+            state.assume(z3.And(rk.ref >= 0, rk.ref < m0, FA(0, d + 1, lambda j: lst_get(rk, j) >= 1)))
+        return {'row_dims': rd, 'ranks': rk, 'norm': SNum('norm')}
+
+    def ensures(self, S, res):
+        yield from fresh_result(S, res)
+        if not isinstance(res, STT):
+            return
+        rd, rk = S.o['row_dims'], S.o['ranks']
+        d = zi(rd.length)
+        yield 'order', zi(res.order) == d
+        yield 'dims', z3.And(same_ints(res.row_dims, rd, d), FA(0, d, lambda j: lst_get(res.col_dims, j) == 1))
+        rkf = (lambda j: lst_get(rk, j)) if isinstance(rk, SList) else (lambda j: z3.If(z3.Or(j <= 0, j >= d), z3.IntVal(1), zi(rk)))
+        yield 'ranks', FA(0, d + 1, lambda j: lst_get(res.ranks, j) == rkf(j))
+
+    def canary(self, S, res):
+        return zi(res.order) == zi(S.o['row_dims'].length) + 1 if isinstance(res, STT) else None
